@@ -27,6 +27,7 @@ from checks import c11 as K11
 
 sys.path.insert(0, os.path.join(C.ROOT, "tools"))
 import translate_loads  # noqa: E402
+import c12_members  # noqa: E402
 from cxx2lean import Refuse  # noqa: E402
 
 TYPES = list(K11.SIMPLE) + ["imep", "team", "pop", "summ", "lam"]
@@ -71,6 +72,28 @@ def regen(chk, broken):
     except Refuse as e:
         broken.append("translator tools/translate_loads.py refuses the current load functions: %s" % e)
         return False
+
+
+def regen_members(chk, broken):
+    """harness/c12_members_gen.h + the member table from the current tree (cached by source hash)."""
+    hdr = os.path.join(C.ROOT, "harness", "c12_members_gen.h")
+    stamp = os.path.join(C.BUILD, "c12_members.stamp")
+    key = C.repo_tree_hash(open(c12_members.__file__).read() +
+                           open(os.path.join(C.ROOT, "tools", "tu", "loads_tu.cc")).read())
+    os.makedirs(C.BUILD, exist_ok=True)
+    try:
+        if os.path.exists(stamp) and os.path.exists(hdr):
+            old = json.load(open(stamp))
+            if old.get("key") == key and old.get("header") == open(hdr).read():
+                return old["table"]
+        table, changed = c12_members.emit(hdr)
+        chk.cov["members_header_changed_vs_committed"] = bool(changed)
+        with open(stamp, "w") as f:
+            json.dump({"key": key, "header": open(hdr).read(), "table": table}, f)
+        return table
+    except Refuse as e:
+        broken.append("tools/c12_members.py cannot enumerate the data members of the load targets: %s" % e)
+        return None
 
 
 def translate_loads_names(gen):
@@ -131,8 +154,22 @@ def run(chk, replay=None):
     if not okd:
         broken.append("c12_driver does not build: " + C.lean_errors(out))
 
+    table = regen_members(chk, broken)
     ser = K11.build_harness()
-    exe = C.build_harness("c12_load", "asan", extra_flags=["-DVERIF_INC=" + K11.inc_hash()])
+    try:
+        exe = C.build_harness("c12_load", "asan", extra_flags=["-DVERIF_INC=" + K11.inc_hash()])
+    except RuntimeError as e:
+        # typically: a data member of a load target whose type has no snapshot rule
+        msg = str(e)
+        m = re.search(r"[^\n]*(no snapshot rule|not enumerated|hashed container)[^\n]*", msg)
+        chk.violation("harness c12_load does not compile against the current tree: the deep snapshot cannot cover "
+                      "every data member of the load targets: " + (m.group(0) if m else msg[-1500:]),
+                      {"broken": "deep snapshot (harness/c12_snap.h + generated c12_members_gen.h)",
+                       "compiler": msg[-3000:]}, no_input=True)
+        return chk.finish(level="proof", checker_cmd="g++ harness/c12_load.cc", rule="(harness does not build)",
+                          trusted=[])
+    member_stats = {}      # (tag, rec, fld) -> [visits, nonzero]
+    features = {}
     tier_i = 0 if chk.tier == "quick" else 1
 
     # ---- requests, one batch per type (bounded memory in the thorough tier) ----------------------
@@ -203,7 +240,11 @@ def run(chk, replay=None):
                   for r in reqs]
 
         def cpp(idx):
-            return C.run_lines(exe, lines[idx::shards], timeout=3000)
+            a, deaths = C.run_lines(exe, lines[idx::shards] + ["stats"], timeout=3000)
+            n = len(lines[idx::shards])
+            st = a[n] if len(a) > n and a[n].startswith("stats ") else None
+            # a death reported on the trailing `stats` line (e.g. a leak report at exit) belongs to the run
+            return a[:n], [(min(j, n - 1), rcode, se) for j, rcode, se in deaths], st
 
         def model(idx):
             return C.run_driver("c12_driver", mlines[idx::shards]) if drv_ok else None
@@ -216,7 +257,8 @@ def run(chk, replay=None):
         cpp_ans = [None] * len(lines)
         mod_ans = [None] * len(lines)
         for i in range(shards):
-            a, deaths = rc_[i]
+            a, deaths, st = rc_[i]
+            absorb_stats(st)
             for j, v in enumerate(a):
                 cpp_ans[i + j * shards] = v
             for j, rcode, se in deaths:
@@ -225,6 +267,41 @@ def run(chk, replay=None):
                 for j, v in enumerate(rm_[i]):
                     mod_ans[i + j * shards] = v
         compare(reqs, lines, cpp_ans, mod_ans)
+
+    def absorb_stats(st):
+        if not st or not st.startswith("stats "):
+            return
+        head, mem, feat = (st.split("|") + ["", ""])[:3]
+        if table is not None and head.split()[1] != table["digest"]:
+            if not any("member table" in b for b in broken):
+                broken.append("the member table compiled into harness c12_load (%s) is not the one generated from "
+                              "the current tree (%s)" % (head.split()[1], table["digest"]))
+            return
+        for kv in mem.split():
+            k, v = kv.split("=")
+            tag, rf = k.split(":")
+            r, f = rf.split(".")
+            a, b = v.split("/")
+            e = member_stats.setdefault((tag, int(r), int(f)), [0, 0])
+            e[0] += int(a)
+            e[1] += int(b)
+        for kv in feat.split():
+            k, v = kv.rsplit("=", 1)
+            features[k] = features.get(k, 0) + int(v)
+
+    def member_name(rf):
+        """'18.0/19.1' -> 'summary<i_mep>::az … analyzer<i_mep>::group_stat_'"""
+        if table is None or "." not in rf:
+            return rf
+        out = []
+        for part in rf.split("/"):
+            try:
+                r, f = (int(x) for x in part.split("."))
+                rec = table["records"][r]
+                out.append(rec["name"] + "::" + rec["fields"][f])
+            except (ValueError, IndexError):
+                out.append(part)
+        return out[0] if len(out) == 2 and out[0] == out[1] else " -> ".join(out)
 
     def compare(reqs, lines, cpp_ans, mod_ans):
         for g, (typ, kind, ts, hx, src, _c) in enumerate(reqs):
@@ -240,12 +317,17 @@ def run(chk, replay=None):
                 continue
             if ca == "skipped":
                 continue
+            where = ""
+            if " ## " in ca:
+                ca, where = ca.split(" ## ", 1)
+                where = member_name(where.strip())
             c = ca.split()
             verdict, same, after = c[0], c[1], " ".join(c[2:])
             chk.count("cpp:" + verdict)
             if verdict != "ok" and same != "same":
                 chk.violation(f"{typ}::load reported failure ({verdict}) on a damaged stream ({kind}) but the target "
-                              f"changed; target after = {after[:300]}", dict(rep, cpp=ca[:600]),
+                              f"changed (first difference of the member-by-member snapshot: {where or '?'}); "
+                              f"target after = {after[:300]}", dict(rep, cpp=ca[:600], changed_member=where),
                               tags=dict(tags, outcome="changed"))
             if verdict.startswith("exc:") and verdict not in FAILISH:
                 chk.violation(f"{typ}::load let an exception escape ({verdict}) on a damaged stream ({kind})",
@@ -277,6 +359,30 @@ def run(chk, replay=None):
                 process(chunk)
         else:
             process(bt)
+    # ---- the snapshot must have covered, and some target populated, EVERY data member -----------------
+    if table is not None and not replay:
+        cover = {}
+        for tag, recs in table["roots"].items():
+            if tag not in TYPES:
+                continue
+            for r in recs:
+                rec = table["records"][r]
+                for f, fname in enumerate(rec["fields"]):
+                    v, nz = member_stats.get((tag, r, f), [0, 0])
+                    name = f"{rec['name']}::{fname}"
+                    cover[f"{tag}: {name}"] = f"{v} visits, {nz} populated"
+                    chk.count("member_visited" if v else "member_never_visited")
+                    if not v:
+                        broken.append(f"data member {name} of the `{tag}` targets was never reached by the before/after "
+                                      f"snapshot (no target of this run holds an object of type {rec['name']}): a failed "
+                                      f"load that changes it cannot be seen")
+                    elif not nz:
+                        broken.append(f"data member {name} of the `{tag}` targets never held anything but its zero / "
+                                      f"empty value in this run ({v} snapshots): the histories that build the targets "
+                                      f"do not populate it, a failed load that resets it cannot be seen")
+        chk.cov["members"] = cover
+        chk.cov["member_table_digest"] = table["digest"]
+        chk.cov["target_features"] = dict(sorted(features.items()))
     ndis = state["ndis"]
     chk.cov["requests"] = state["requests"]
     chk.cov["model_vs_code_disagreements"] = ndis
